@@ -68,6 +68,8 @@ pub fn tok_atoms(ds: &str, de: &str, fillers: &[&str], with_prefixes: bool) -> V
 pub enum Kind {
     Expired,
     Future,
+    /// time-limited, expires 2500-01-01 (pending under the standard configuration)
+    Later,
     Targeted,
     Untargeted,
     SkipExpired,
@@ -86,11 +88,11 @@ impl Kind {
         matches!(self, Kind::Expired | Kind::Targeted)
     }
     pub fn pending(&self) -> bool {
-        matches!(self, Kind::Future | Kind::Untargeted)
+        matches!(self, Kind::Future | Kind::Later | Kind::Untargeted)
     }
     pub fn tag_name<'a>(&self, tl: &'a str, rm: &'a str) -> &'a str {
         match self {
-            Kind::Expired | Kind::Future | Kind::SkipExpired => tl,
+            Kind::Expired | Kind::Future | Kind::Later | Kind::SkipExpired => tl,
             Kind::Targeted | Kind::Untargeted => rm,
             Kind::Unregistered => "zz",
         }
@@ -100,6 +102,7 @@ impl Kind {
         let mut s = match self {
             Kind::Expired => format!("{tl} to=\"{TO_EXPIRED}\""),
             Kind::Future => format!("{tl} to=\"{TO_FUTURE}\""),
+            Kind::Later => format!("{tl} to=\"2500-01-01 00:00:00\""),
             Kind::Targeted => format!("{rm} name=\"a\""),
             Kind::Untargeted => format!("{rm} name=\"b\""),
             Kind::SkipExpired => format!("{tl} to=\"{TO_EXPIRED}\" skip"),
@@ -186,6 +189,9 @@ pub enum Item {
         unwrap: bool,
         body: Vec<Item>,
     },
+    /// an element with the unwrap-block attribute but only one line between its tags:
+    /// it cannot be unwrapped (three lines: tag, code, tag)
+    ShortUnwrap { kind: Kind },
     /// code? <tag>content</tag> code?   on one line
     Inline {
         kind: Kind,
@@ -207,6 +213,7 @@ pub struct AstParams {
     pub extra_indent: bool,
     pub blank: bool,
     pub rich: bool,
+    pub short_unwrap: bool,
 }
 
 pub fn size(items: &[Item]) -> usize {
@@ -214,6 +221,7 @@ pub fn size(items: &[Item]) -> usize {
         .iter()
         .map(|i| match i {
             Item::Block { unwrap, body, .. } => (if *unwrap { 4 } else { 2 }) + size(body),
+            Item::ShortUnwrap { .. } => 3,
             _ => 1,
         })
         .sum()
@@ -227,6 +235,7 @@ enum Opt {
     Ws(u8),
     Inline(Kind, bool, bool, bool),
     Block(Kind, bool),
+    Short(Kind),
 }
 
 pub fn gen_doc(ch: &mut Chooser, p: &AstParams) -> Vec<Item> {
@@ -269,6 +278,9 @@ fn gen_list(ch: &mut Chooser, p: &AstParams, budget: &mut usize, depth: usize) -
                 if p.unwrap && *budget >= 4 {
                     opts.push(Opt::Block(k, true));
                 }
+                if p.short_unwrap && *budget >= 3 {
+                    opts.push(Opt::Short(k));
+                }
             }
         }
         match opts[ch.choose(opts.len())] {
@@ -297,6 +309,10 @@ fn gen_list(ch: &mut Chooser, p: &AstParams, budget: &mut usize, depth: usize) -
                     post,
                     content,
                 });
+            }
+            Opt::Short(kind) => {
+                *budget -= 3;
+                v.push(Item::ShortUnwrap { kind });
             }
             Opt::Block(kind, unwrap) => {
                 *budget -= if unwrap { 4 } else { 2 };
@@ -349,6 +365,8 @@ pub struct RenderOpts<'a> {
     /// add a unique c="kN" attribute to every opening tag
     pub tag_ids: bool,
     pub final_newline: bool,
+    /// code text made of letters, digits and spaces only (no character of any pool delimiter)
+    pub plain: bool,
 }
 
 pub fn render(items: &[Item], o: &RenderOpts) -> Rendered {
@@ -405,7 +423,9 @@ fn render_list(
         match it {
             Item::Code { extra, mb, rich } => {
                 let id = next_id(ctr);
-                let text = if *rich {
+                let text = if o.plain {
+                    format!("{}{} x", ind(level + *extra as usize), id)
+                } else if *rich {
                     format!("{}{}  =  1;  ", ind(level + *extra as usize), id)
                 } else if *mb {
                     format!("{}{}あ🧹;", ind(level + *extra as usize), id)
@@ -450,7 +470,7 @@ fn render_list(
                 let cls = close_tag(o.d, &name);
                 let mut text = ind(level);
                 if *pre {
-                    text.push_str(&format!("{}a = 1; ", id));
+                    text.push_str(&if o.plain { format!("{}p 1 ", id) } else { format!("{}a = 1; ", id) });
                 }
                 let base = r.src.len();
                 let os = base + text.len();
@@ -464,7 +484,7 @@ fn render_list(
                 text.push_str(&cls);
                 let ce = base + text.len();
                 if *post {
-                    text.push_str(&format!(" {}b = 2;", id));
+                    text.push_str(&if o.plain { format!(" {}q 2", id) } else { format!(" {}b = 2;", id) });
                 }
                 r.elems.push(ElemTruth {
                     kind: *kind,
@@ -478,6 +498,41 @@ fn render_list(
                     depth: owners.len(),
                 });
                 push_line(r, &text, id, owners, 6, Some(idx));
+            }
+            Item::ShortUnwrap { kind } => {
+                let id = next_id(ctr);
+                let idx = r.elems.len();
+                let extra = if o.tag_ids {
+                    format!(" c=\"{}\"", id)
+                } else {
+                    String::new()
+                };
+                let name = kind.tag_name(&o.names.tl, &o.names.rm).to_string();
+                let opn = format!(
+                    "{}{}{}",
+                    o.d.ds,
+                    kind.open_body(&o.names.tl, &o.names.rm, true, &extra),
+                    o.d.de
+                );
+                let cls = close_tag(o.d, &name);
+                r.elems.push(ElemTruth {
+                    kind: *kind,
+                    unwrap: true,
+                    inline: false,
+                    open: (0, 0),
+                    close: (0, 0),
+                    wrap_open: (0, 0),
+                    wrap_close: (0, 0),
+                    parent: owners.last().copied(),
+                    depth: owners.len(),
+                });
+                let (ls, le) = push_line(r, &format!("{}{}", ind(level), opn), String::new(), owners, 2, Some(idx));
+                r.elems[idx].open = (ls + ind(level).len(), le);
+                owners.push(idx);
+                push_line(r, &if o.plain { format!("{}{} x", ind(level), id) } else { format!("{}{}();", ind(level), id) }, id.clone(), owners, 0, None);
+                owners.pop();
+                let (ls, le) = push_line(r, &format!("{}{}", ind(level), cls), String::new(), owners, 3, Some(idx));
+                r.elems[idx].close = (ls + ind(level).len(), le);
             }
             Item::Block { kind, unwrap, body } => {
                 let id = next_id(ctr);
@@ -520,7 +575,7 @@ fn render_list(
                     let wid = next_id(ctr);
                     let w = push_line(
                         r,
-                        &format!("{}if ({}) {{", ind(level), wid),
+                        &if o.plain { format!("{}if {}", ind(level), wid) } else { format!("{}if ({}) {{", ind(level), wid) },
                         wid,
                         owners,
                         4,
@@ -531,7 +586,7 @@ fn render_list(
                     let wid = next_id(ctr);
                     let w = push_line(
                         r,
-                        &format!("{}}} // {}", ind(level), wid),
+                        &if o.plain { format!("{}end {}", ind(level), wid) } else { format!("{}}} // {}", ind(level), wid) },
                         wid,
                         owners,
                         5,
@@ -564,7 +619,9 @@ impl Rendered {
             if !el.kind.ready() {
                 continue;
             }
-            let ranges: Vec<(usize, usize)> = if el.unwrap {
+            let ranges: Vec<(usize, usize)> = if el.unwrap && el.wrap_open == (0, 0) {
+                vec![] // cannot be unwrapped
+            } else if el.unwrap {
                 vec![
                     (el.open.0, el.wrap_open.1),
                     (el.wrap_close.0, el.close.1),
